@@ -4,10 +4,12 @@ import (
 	"encoding/json"
 	"fmt"
 	"os"
+	"runtime"
 	"runtime/debug"
 	"strings"
 	"testing"
 	"testing/synctest"
+	"time"
 )
 
 type vReplayFile struct {
@@ -15,6 +17,23 @@ type vReplayFile struct {
 	Vec     []uint64 `json:"vec"`
 	Kinds   []string `json:"kinds"`
 	Tier    int      `json:"tier"`
+}
+
+// vSettleGoroutines waits (real time, outside any bubble) until the process's goroutine count has stopped
+// changing: goroutines left winding down by an earlier real-time item must not move the baseline that
+// vLiveGoroutines compares against.
+func vSettleGoroutines() {
+	stable := 0
+	last := runtime.NumGoroutine()
+	for i := 0; i < 400 && stable < 5; i++ {
+		time.Sleep(2 * time.Millisecond)
+		n := runtime.NumGoroutine()
+		if n == last {
+			stable++
+		} else {
+			stable, last = 0, n
+		}
+	}
 }
 
 // TestVerifReplay replays one or more solver models (VERIF_REPLAY = JSON file holding a list).
@@ -32,6 +51,7 @@ func TestVerifReplay(t *testing.T) {
 		t.Fatal(err)
 	}
 	for i, it := range items {
+		vSettleGoroutines()
 		out := func() (o string) {
 			var res string
 			defer func() {
